@@ -406,7 +406,7 @@ tail:
 
         case RULE_ARGUMENT: {
             int32_t index = ((int32_t *)rule)[1];
-            Janet capture = (index >= s->extrac) ? janet_wrap_nil() : s->extrav[index];
+            Janet capture = (index < 0 || index >= s->extrac) ? janet_wrap_nil() : s->extrav[index];
             pushcap(s, capture, rule[2]);
             return text;
         }
@@ -1703,7 +1703,9 @@ static void *peg_unmarshal(JanetMarshalContext *ctx) {
                 i += 4;
                 break;
             case RULE_ARGUMENT:
-                /* [searchtag, tag] */
+                /* [index, tag] */
+                if (i + 1 >= blen) goto bad;
+                if ((int32_t) rule[1] < 0) goto bad;
                 i += 3;
                 break;
             case RULE_GETTAG:
